@@ -7,21 +7,29 @@ def call(logic, K, f, naming='int', how=0, containers='list', form='obj', F=None
          kripke=None, objlang=None, raw_leaves=False, fshape='list-set'):
     """Run <logic>.modelcheck on the harness model K and the tuple formula f.
 
-    form: 'obj' (object of `objlang`, default the checker's own language), 'text'
-    (independent fully parenthesised printer) or 'str' (the library's own str of the object).
+    form: 'obj' (object of `objlang`, default the checker's own language), 'shared' (the same, equal
+    subformulas built once and reused as one object), 'text' (independent fully parenthesised
+    printer) or 'str' (the library's own str of the object).
     F: None or a list of lists of harness states.
     Returns ('set', mask) | ('exc', class name, message) | ('bad', description).
     """
     L = fm.lang(logic)
     nm = graphs.NAMINGS[naming]
     back = dict((nm(i), i) for i in range(K['n']))
-    try:
-        if kripke is None:
+    if kripke is None:
+        try:
             kripke = km.to_lib(K, naming, how, containers)
+        except core.Refused:
+            raise
+        except Exception as e:
+            # the harness only hands total structures in documented container types to the constructor
+            return ('bad', 'the Kripke constructor refused a total structure: %s: %s' % (type(e).__name__, str(e)[:160]))
+    try:
         if form == 'text':
             arg = fm.to_text(f)
         else:
-            arg = fm.to_lib(f, fm.lang(objlang or logic), raw_leaves)
+            # 'shared': equal subformulas are ONE object, used at several places of the formula
+            arg = fm.to_lib(f, fm.lang(objlang or logic), raw_leaves, share={} if form == 'shared' else None)
             if form == 'str':
                 arg = str(arg)
     except Exception as e:
